@@ -25,6 +25,7 @@ pub struct Norm {
     pub str_params: Vec<String>,
     pub into_vec: Vec<String>,
     pub iter_on: Vec<String>,
+    pub iter_vec: Vec<String>,
     pub keyed_mut_iter: Vec<(String, String, String)>,
     lvalue_depth: usize,
     tmp_counter: usize,
@@ -225,6 +226,26 @@ fn pat_binds_by_mut_ref(p: &Pat) -> bool {
 }
 
 impl Norm {
+    /// N9c: `for P in NAME.iter()` over an opaque collection => `for P in FN(NAME)` (option iter_vec=NAME:FN;
+    /// FN is an assumed-contract function returning the iteration sequence as a Vec)
+    fn n9c(&mut self, f: &mut syn::ExprForLoop) {
+        if let Expr::MethodCall(mc) = &*f.expr {
+            if mc.method == "iter" && mc.args.is_empty() {
+                if let Expr::Path(p) = &*mc.receiver {
+                    let n = p.path.segments.iter().map(|s| s.ident.to_string()).collect::<Vec<_>>().join("::");
+                    let hit = self.iter_vec.iter().find_map(|x| x.split_once(':').filter(|(a, _)| *a == n).map(|(_, b)| b.to_string()));
+                    if let Some(fname) = hit {
+                        let sp = f.for_token.span;
+                        let recv = mc.receiver.clone();
+                        let fid = proc_macro2::Ident::new(&fname, proc_macro2::Span::call_site());
+                        *f.expr = parse_quote!(#fid(#recv));
+                        self.log("N9c-iter-via-vec", sp);
+                    }
+                }
+            }
+        }
+    }
+
     pub fn new(req: &Value) -> Self {
         let strs = |k: &str| -> Vec<String> {
             req[k]
@@ -249,6 +270,7 @@ impl Norm {
             str_params: strs("str_params"),
             into_vec: strs("into_vec"),
             iter_on: strs("iter_on"),
+            iter_vec: strs("iter_vec"),
             keyed_mut_iter: strs("keyed_mut_iter")
                 .iter()
                 .filter_map(|x| {
@@ -554,6 +576,13 @@ impl VisitMut for Norm {
         if !drops.is_empty() {
             let mut logged = vec![];
             b.stmts.retain(|s| {
+                if let Stmt::Expr(Expr::MethodCall(mc), Some(_)) = s {
+                    let n = format!(".{}", mc.method);
+                    if drops.iter().any(|d| *d == n) {
+                        logged.push(mc.span());
+                        return false;
+                    }
+                }
                 if let Stmt::Expr(Expr::Call(c), Some(_)) = s {
                     if let Expr::Path(p) = &*c.func {
                         let n = p.path.segments.iter().map(|s| s.ident.to_string()).collect::<Vec<_>>().join("::");
@@ -707,6 +736,7 @@ impl VisitMut for Norm {
                         }
                     }
                 }
+                self.n9c(f);
                 if let Expr::Path(p) = &*f.expr {
                     let n = p.path.segments.iter().map(|s| s.ident.to_string()).collect::<Vec<_>>().join("::");
                     if self.iter_on.iter().any(|x| *x == n) {
@@ -971,6 +1001,9 @@ impl VisitMut for Norm {
                                 let ne: Expr = parse_quote!(for #pat in #recv #blk);
                                 *e = ne;
                                 self.log("N8-for_each-to-for", sp);
+                                if let Expr::ForLoop(f) = e {
+                                    self.n9c(f);
+                                }
                             }
                         }
                     }
@@ -1270,11 +1303,12 @@ fn body_has_return(e: &Expr) -> bool {
 }
 
 /// N11 (nested): the first statement, at any depth, whose token text starts with `anchor`
-pub fn find_stmt(b: &Block, anchor: &str) -> Option<Stmt> {
+pub fn find_stmt(b: &Block, anchor: &str, nth: usize) -> Option<Stmt> {
     let norm = |s: &str| s.chars().filter(|c| !c.is_whitespace()).collect::<String>();
     let a = norm(anchor);
     struct V {
         a: String,
+        left: usize,
         found: Option<Stmt>,
     }
     impl<'ast> syn::visit::Visit<'ast> for V {
@@ -1284,13 +1318,16 @@ pub fn find_stmt(b: &Block, anchor: &str) -> Option<Stmt> {
             }
             let t: String = st.to_token_stream().to_string().chars().filter(|c| !c.is_whitespace()).collect();
             if t.starts_with(&self.a) {
-                self.found = Some(st.clone());
-                return;
+                self.left -= 1;
+                if self.left == 0 {
+                    self.found = Some(st.clone());
+                    return;
+                }
             }
             syn::visit::visit_stmt(self, st);
         }
     }
-    let mut v = V { a, found: None };
+    let mut v = V { a, left: nth.max(1), found: None };
     syn::visit::Visit::visit_block(&mut v, b);
     v.found
 }
